@@ -3,7 +3,7 @@
    [leq] is list equality up to Qeq.  All statements hold for EVERY sample list (any length), every
    hardware record (weights, time constants, limits), every gamma, dt, padding and tap count. *)
 From Coq Require Import ZArith QArith Qabs List Bool Arith.
-From PV Require Import Base.QUtil Gen.GenPns Model.Pns Proofs.PnsProofs Proofs.PnsE2E.
+From PV Require Import Base.QUtil Gen.GenPns Model.Pns Proofs.PnsProofs Proofs.PnsE2E Proofs.PnsMod.
 Import ListNotations.
 Open Scope Q_scope.
 
@@ -197,6 +197,37 @@ Example C20_tap_count_example :
   tap_count_ok 53 100 (1#2) lowpass_eps = true /\ tap_count_tight 53 (1#2) lowpass_eps = true /\
   tap_count_ok 51 100 (1#2) lowpass_eps = false /\ tap_count_ok 100 100 (1#301) lowpass_eps = true.
 Proof. vm_compute. repeat split. Qed.
+
+(* ---- round 4 ------------------------------------------------------------------------------- *)
+(* Sequence.mod_grad_axis(axis, c) / flip_grad_axis (c = -1) multiply every amplitude of the axis'
+   waveform by c and leave the corner times alone [scale_pts].  For the whole model: the gradient
+   function scales by c at every time, and if calculate_pns succeeds on the sequence, it succeeds on
+   the modified one, with the same number of samples, that axis' component scaled by |c| and the two
+   other components unchanged -- the exact expectation for predict / modify / predict again on one
+   object (the block cache itself is runtime state outside the model: history stream of the check). *)
+Theorem C20_grad_scales_pointwise : forall c pts t, grad_pp (scale_pts c pts) t == c * grad_pp pts t.
+Proof. exact grad_pp_scale. Qed.
+Print Assumptions C20_grad_scales_pointwise.
+Theorem C20_mod_grad_axis :
+  (forall gamma dt hx hy hz px wy wz tx ty tz c o,
+     calc_pns lowpass_fir gamma dt hx hy hz (Some px) wy wz tx ty tz = OK o ->
+     exists o', calc_pns lowpass_fir gamma dt hx hy hz (Some (scale_pts c px)) wy wz tx ty tz = OK o' /\
+       leq (o_x o') (map (Qmult (Qabs c)) (o_x o)) /\ o_y o' = o_y o /\ o_z o' = o_z o) /\
+  (forall gamma dt hx hy hz wx py wz tx ty tz c o,
+     calc_pns lowpass_fir gamma dt hx hy hz wx (Some py) wz tx ty tz = OK o ->
+     exists o', calc_pns lowpass_fir gamma dt hx hy hz wx (Some (scale_pts c py)) wz tx ty tz = OK o' /\
+       leq (o_y o') (map (Qmult (Qabs c)) (o_y o)) /\ o_x o' = o_x o /\ o_z o' = o_z o) /\
+  (forall gamma dt hx hy hz wx wy pz tx ty tz c o,
+     calc_pns lowpass_fir gamma dt hx hy hz wx wy (Some pz) tx ty tz = OK o ->
+     exists o', calc_pns lowpass_fir gamma dt hx hy hz wx wy (Some (scale_pts c pz)) tx ty tz = OK o' /\
+       leq (o_z o') (map (Qmult (Qabs c)) (o_z o)) /\ o_x o' = o_x o /\ o_y o' = o_y o).
+Proof. exact (conj calc_pns_mod_x (conj calc_pns_mod_y calc_pns_mod_z)). Qed.
+Print Assumptions C20_mod_grad_axis.
+(* the per-axis chain is a function of the samples up to rational equality *)
+Theorem C20_pns_axis_respects_equality : forall h gamma dt p1 p2 taps g1 g2, leq g1 g2 ->
+  leq (pns_axis lowpass_fir h gamma dt p1 p2 taps g1) (pns_axis lowpass_fir h gamma dt p1 p2 taps g2).
+Proof. exact pns_axis_leq. Qed.
+Print Assumptions C20_pns_axis_respects_equality.
 
 (* Non-vacuity: a really truncated filter differs from the recursive one (so the bound says
    something), and a complete run of the model returns OK with three components. *)
